@@ -105,18 +105,25 @@ def execActions (fl : Flags) : List Action → State → E State
 def setOrPanic (vals : AMap WireValue) (n : String) (v : WireValue) : E (AMap WireValue) :=
   if vals.contains n then pure (vals.insert n v) else throw (.fail (.panic ("get_mut on missing wire " ++ n)))
 
+/-- `*values.get_mut(k).unwrap() = *v` for one default -/
+def setDefault (vals : AMap WireValue) (p : String × WireValue) : E (AMap WireValue) := setOrPanic vals p.1 p.2
+
+/-- copy one register's input to its output -/
+def loadOne (vals : AMap WireValue) (sig : String × String × Width) : E (AMap WireValue) := do
+  let nv ← getOrPanic vals sig.1
+  setOrPanic vals sig.2.1 nv
+
+/-- the body of the `for bank in &self.register_banks` loop -/
+def processBank (vals : AMap WireValue) (bank : RegisterBank) : E (AMap WireValue) := do
+  let st ← getOrPanic vals bank.stall
+  let bu ← getOrPanic vals bank.bubble
+  if bu.bits > 0 then bank.defaults.foldlM setDefault vals
+  else if !(st.bits > 0) then bank.signals.foldlM loadOne vals
+  else pure vals
+
 /-- `process_register_banks` -/
 def processBanks (banks : List RegisterBank) (vals : AMap WireValue) : E (AMap WireValue) :=
-  banks.foldlM (fun (vals : AMap WireValue) bank => do
-    let st ← getOrPanic vals bank.stall
-    let bu ← getOrPanic vals bank.bubble
-    if bu.bits > 0 then
-      bank.defaults.foldlM (fun vals (p : String × WireValue) => setOrPanic vals p.1 p.2) vals
-    else if !(st.bits > 0) then
-      bank.signals.foldlM (fun vals sig => do
-        let nv ← getOrPanic vals sig.1
-        setOrPanic vals sig.2.1 nv) vals
-    else pure vals) vals
+  banks.foldlM processBank vals
 
 /-- `step_with_output` -/
 def stepCycle (fl : Flags) (p : Program) (s : State) : E State := do
@@ -153,3 +160,25 @@ def runN (fl : Flags) (p : Program) : Nat → State → E State
   | n+1, s => do
       let s' ← stepCycle fl p s
       runN fl p n s'
+
+/-! ### the final report of `dump_y86` -/
+
+def halted (s : State) : Bool := statusOr s 1 == 2
+def timedOut (s : State) (timeout : Nat) : Bool := s.cycle ≥ timeout
+
+inductive Banner where
+  | halted | timedOut (cycles : Nat) | error | between (cycle : Nat)
+  deriving Repr, DecidableEq
+
+/-- header selection of `dump_y86` -/
+def banner (s : State) (timeout : Nat) : Banner :=
+  if halted s then .halted
+  else if timedOut s timeout then .timedOut s.cycle
+  else if isDone s timeout then .error
+  else .between s.cycle
+
+/-- the `Cycles run:` and `Error code:` lines: (printed cycle count, printed status code) -/
+def reportLines (s : State) (timeout : Nat) : Option Nat × Option Nat :=
+  if isDone s timeout && !timedOut s timeout then
+    (some s.cycle, if !halted s && !timedOut s timeout then some (statusOr s 255) else none)
+  else (none, none)
